@@ -1,6 +1,6 @@
 SPECIFICATION TBSpec
 CONSTANTS
-  Inputs = {"I1"}
+  Inputs = {"I1", "I2"}
   EqOpts = {"plain", "revcur", "twopi", "revbt"}
   SignOpts = {"revcur", "twopi", "revbt"}
   Settings = {"A"}
